@@ -26,6 +26,9 @@ theorem owed_ge (L : Rat) (b : Nat) (el : Rat) : (b : Rat) / L - el ≤ owed L b
 theorem mul_div_cancel' (L : Rat) (hL : 0 < L) (x : Rat) : L * (x / L) = x := by
   rw [Rat.mul_comm]; exact Rat.div_mul_cancel (by grind)
 
+theorem div_nonneg' {x L : Rat} (hx : 0 ≤ x) (hL : 0 < L) : 0 ≤ x / L := by
+  rw [Rat.div_def]; exact Rat.mul_nonneg hx (Rat.le_of_lt (Rat.inv_pos.mpr hL))
+
 theorem bytes_le (L : Rat) (hL : 0 < L) (b : Nat) (el : Rat) : (b : Rat) ≤ L * (el + owed L b el) := by
   have h := owed_ge L b el
   have h2 : (b : Rat) / L ≤ el + owed L b el := by grind
